@@ -23,7 +23,7 @@ on every stream, what the receiving application has read is a PREFIX of what the
 Hypotheses (each decidable on the run, each shown satisfiable by the `example`s at the end):
 * `Reliable ops`: every `openS` is ordered with `relType = 0`, no `unreg` (the SSN / MID counters of a stream object are
   never restarted; no FORWARD-TSN is ever due, and NetSys delivers none);
-* `chunksWritten P ops < 2^31` (I-DATA; `2^30` for DATA, see there): fewer than 2^31 chunks are created in all (each gets at most one TSN —
+* `chunksWritten P ops < 2^31`: fewer than 2^31 DATA chunks are created in all (each gets at most one TSN —
   `SenderTsn.run_tsn`, `moved_le_written`), so that a 32-bit TSN names one chunk;
 * `SelContig P ops` (DATA only): the order in which the pending queue hands out chunks — the `sel` ORACLE of the Sender model;
   it is the order of the TSNs — keeps the fragments of a message together and serves each stream first-in-first-out.
@@ -55,12 +55,11 @@ theorem C01_netsys_prefix_idata (P : Params) (ops : List Op) (si : BitVec 16)
 message-contiguous and per-stream FIFO (`SelContig`, what `Props/C17.lean` proves of the real pending queue), with any
 SACKs, any losses / duplications / reorderings / bundlings: on every stream `si` the `(PPI, bytes)` read by the receiving
 application are a prefix of the `(PPI, bytes)` of the accepted writes on `si`.
-The bound is `2^30` chunks written (not `2^31`): fragments that were written but never got a TSN are given virtual TSN
-offsets ABOVE every TSN in use in the receiver theorem's universe, which needs `moved + written < 2^31`
-(`moved ≤ written`: `C01_wire_tsn_stable`). Tightening it to `2^31` needs one more counting lemma and is not done. -/
+Fragments that were written but never got a TSN are given, in the receiver theorem's universe, TSN offsets that no
+moved chunk uses and that stay below the number of chunks written (counting: `Proofs/NetSys/Count.lean`). -/
 theorem C01_netsys_prefix (P : Params) (ops : List Op) (si : BitVec 16)
     (hil : P.cfg.useInterleaving = false) (hrel : Reliable ops = true) (hsel : SelContig P ops = true)
-    (htsn : chunksWritten P ops < 2^30) (hwin : WinOk P si (2^15) (init P) ops = true) :
+    (htsn : chunksWritten P ops < 2^31) (hwin : WinOk P si (2^15) (init P) ops = true) :
     readsOn P si (init P) ops <+: writesOn P si (init P) ops :=
   netsys_prefix_data P ops si hil hrel hsel htsn hwin
 
